@@ -69,6 +69,8 @@ func runC13(c *hx.Ctx) {
 	budget := &sumBudget{left: 70000 * scale}
 	budgetGrowth := &sumBudget{left: 25000 * scale}
 	budgetInterf := &sumBudget{left: 45000 * scale}
+	// ---- known finding K10: the deterministic corpus scenario, first on every seed
+	sumK10Probe(c, budget)
 	// ---- forks
 	for b := 0; b < c.N(260); b++ {
 		sc := forkBase(r)
